@@ -230,17 +230,6 @@ def nextRangeScore (pf : FloatOracle) : R (UInt64 × Bool) := fun s =>
     | .ok x => .ok (x, rest)
     | .error e => .error e
 
-def execZRangeByScore (pf : FloatOracle) (rev : Bool) (finish : Bool → HRes → UProg Out) : UExec := fun args =>
-  withArgs (nextString b!"key") args fun k rest =>
-  withArgs (nextRangeScore pf) rest fun a rest =>
-  withArgs (nextRangeScore pf) rest fun b rest =>
-  match rangeOpts {} rest with
-  | .error e => failE e
-  | .ok o =>
-    -- ZRANGEBYSCORE: (min, max); ZREVRANGEBYSCORE: (max, min)
-    let (mn, mx) := if rev then (b, a) else (a, b)
-    .call (.zrangebyscore k mn.1 mx.1 { o with minex := mn.2, maxex := mx.2 }) (finish o.withscores)
-
 /-- `Array.ReverseBy(2)`: complete pairs are taken from the end; with an odd length the leading element
 keeps its place behind them -/
 def reverseEvenPairs : List Msg → List Msg
@@ -250,8 +239,16 @@ def reverseEvenPairs : List Msg → List Msg
 def reversePairs (l : List Msg) : List Msg :=
   if l.length % 2 = 0 then reverseEvenPairs l else reverseEvenPairs l.tail ++ l.take 1
 
-/-- what ZREVRANGE / ZREVRANGEBYSCORE do with the handler's reply -/
-def reverseReply (withscores : Bool) (r : HRes) : UProg Out :=
+/-- LIMIT applied to a reply of `step`-element entries: skip `offset` entries, keep `count` (negative = all);
+a negative offset selects nothing -/
+def limitEntries (step : Nat) (offset count : Int) (l : List Msg) : List Msg :=
+  if offset < 0 then [] else
+  let rest := l.drop (offset.toNat * step)
+  if count < 0 then rest else rest.take (count.toNat * step)
+
+/-- what ZREVRANGE / ZREVRANGEBYSCORE do with the handler's reply (ZREVRANGEBYSCORE applies its LIMIT to the
+reversed range) -/
+def reverseReplyL (offset count : Int) (withscores : Bool) (r : HRes) : UProg Out :=
   match r.err with
   | some t => failE { text := t }
   | none =>
@@ -259,8 +256,25 @@ def reverseReply (withscores : Bool) (r : HRes) : UProg Out :=
     | .absent => .panic
     | .arrNil => .panic
     | .arr es =>
-      if withscores then replyP (.arr (reversePairs es)) else replyP (.arr es.reverse)
+      if withscores then replyP (.arr (limitEntries 2 offset count (reversePairs es)))
+      else replyP (.arr (limitEntries 1 offset count es.reverse))
     | _ => failE errType
+
+def reverseReply (withscores : Bool) (r : HRes) : UProg Out := reverseReplyL 0 (-1) withscores r
+
+def execZRangeByScore (pf : FloatOracle) (rev : Bool) : UExec := fun args =>
+  withArgs (nextString b!"key") args fun k rest =>
+  withArgs (nextRangeScore pf) rest fun a rest =>
+  withArgs (nextRangeScore pf) rest fun b rest =>
+  match rangeOpts {} rest with
+  | .error e => failE e
+  | .ok o =>
+    if rev then
+      -- ZREVRANGEBYSCORE: (max, min); the whole range is requested, LIMIT is applied after reversing
+      .call (.zrangebyscore k b.1 a.1 { o with minex := b.2, maxex := a.2, offset := 0, count := -1 })
+        (reverseReplyL o.offset o.count o.withscores)
+    else
+      .call (.zrangebyscore k a.1 b.1 { o with minex := a.2, maxex := b.2 }) fun r => .ret (outOf r)
 
 def execZRange (pf : FloatOracle) : UExec := fun args =>
   withArgs (nextString b!"key") args fun k rest =>
@@ -515,8 +529,8 @@ def userTable (pf : FloatOracle) : List (Bytes × UExec) := [
   (b!"SADD", shapeSL .sadd), (b!"SMEMBERS", shapeS .smembers), (b!"SREM", shapeSL .srem),
   (b!"ZADD", execZAdd pf), (b!"ZINCRBY", shapeSFS pf .zincrby), (b!"ZRANGE", execZRange pf),
   (b!"ZREVRANGE", execZRevRange),
-  (b!"ZRANGEBYSCORE", execZRangeByScore pf false fun _ r => .ret (outOf r)),
-  (b!"ZREVRANGEBYSCORE", execZRangeByScore pf true reverseReply),
+  (b!"ZRANGEBYSCORE", execZRangeByScore pf false),
+  (b!"ZREVRANGEBYSCORE", execZRangeByScore pf true),
   (b!"ZREM", shapeSL .zrem), (b!"ZSCORE", shapeSS .zscore),
   (b!"APPEND", execAppend),
   (b!"INCR", fun args => withArgs (nextString b!"key") args fun k _ => incDec k 1),
